@@ -72,7 +72,11 @@ def m_coroutine_poll(ex, args, callee):
     """`<{async block / async fn body} as Future>::poll` and `Pin<Box<dyn Future>>::poll` on a dropshot coroutine"""
     cell = pinned(args[0])
     co = cell.v
-    if isinstance(co, Ref): cell, co = co.cell, co.cell.v
+    for _ in range(3):
+        if isinstance(co, Ref): cell, co = co.cell, co.cell.v
+        elif isinstance(co, Adt) and co.ty == 'Pin':       # Pin<&mut Pin<Box<dyn Future>>>
+            cell = co.fields[None][0]; co = cell.v
+        else: break
     if isinstance(co, Adt) and co.ty == 'Coroutine':
         pin = Adt('Pin', 0, {None: [Cell(Ref(cell))]})
         return ex.call_fn(co.fields['fn'], [pin, args[1]])
